@@ -1,3 +1,178 @@
 import Driver.Common
--- stub driver (not yet implemented)
-def main : IO Unit := Driver.run () (fun s _ => (s, "bad-op"))
+import SSV.Model.Router
+open SSV SSV.Router
+
+/-
+Line protocol of ssv_c09 (one answer line per input line):
+  reset
+  env geoip=0 resolvers=r1,r2 tcp=a,b udp=a servers=s0,s1 dsets=d1 psets=p1 deftcp=x defudp=y
+  res <resolver> <domain> a4:<n> | a6:<n> | l | f:<tag>       resolver behaviour (default: l = ErrLookup)
+  dset <name> <domain,...>                                   domains of the universe that the named set matches
+  pset <name> <prefix,...>                                   prefixes of the named prefix set (4:<n>/<bits>)
+  route name=.. net=.. client=.. resolver=.. fs=.. fu=.. fp=.. fpr=.. fx=.. fxs=.. fg=.. tp=.. tpr=.. td=.. tds=..
+        ex=.. exs=.. eg=.. tx=.. txs=.. tg=.. flags=<letters>
+  build                                                     -> ok | err <class>
+  req net=tcp srv=0 user=u src=4:<n> sport=1 dip=4:<n> | ddom=<name> dport=80
+                                                            -> client <name> | rejected | err <class> | panic
+-/
+
+structure St where
+  env : Env := {}
+  cfg : Config := {}
+  resTab : List (String × String × LookupRes) := []
+  dsetTab : List (String × List String) := []
+  psetTab : List (String × List Prefix) := []
+  router : Option Router := none
+
+def splitComma (s : String) : List String :=
+  if s.isEmpty then [] else (s.splitOn ",")
+
+def kv (tok : String) : String × String :=
+  match tok.splitOn "=" with
+  | [] => ("", "")
+  | [k] => (k, "")
+  | k :: rest => (k, "=".intercalate rest)
+
+def lookupKV (kvs : List (String × String)) (k : String) : String :=
+  match kvs.find? (fun x => x.1 == k) with
+  | some x => x.2
+  | none => ""
+
+def parseIP (s : String) : Option IP :=
+  match s.splitOn ":" with
+  | ["4", n] => n.toNat?.map IP.v4
+  | ["6", n] => n.toNat?.map IP.v6
+  | _ => none
+
+def parsePrefix (s : String) : Option Prefix :=
+  match s.splitOn "/" with
+  | [a, b] => do
+    let ip ← parseIP a
+    let bits ← b.toNat?
+    pure ⟨ip, bits⟩
+  | _ => none
+
+def parsePortItem (s : String) : Option PortItem :=
+  match s.splitOn "-" with
+  | [a] => a.toNat?.map PortItem.single
+  | [a, b] => do
+    let x ← a.toNat?
+    let y ← b.toNat?
+    pure (.range x y)
+  | _ => none
+
+def parseLookupRes (s : String) : Option LookupRes :=
+  if s == "l" then some .errLookup
+  else if s.startsWith "f:" then some (.fail (s.drop 2).toString)
+  else if s.startsWith "a" then (parseIP (s.drop 1).toString).map LookupRes.addr
+  else none
+
+def allSome {α : Type} : List (Option α) → Option (List α)
+  | [] => some []
+  | none :: _ => none
+  | some a :: r => (allSome r).map (a :: ·)
+
+def parseRoute (kvs : List (String × String)) : Option RouteConfig := do
+  let g := lookupKV kvs
+  let flags := (g "flags").toList
+  let f (c : Char) : Bool := flags.contains c
+  let fp ← allSome ((splitComma (g "fp")).map String.toNat?)
+  let tp ← allSome ((splitComma (g "tp")).map String.toNat?)
+  let fpr ← allSome ((splitComma (g "fpr")).map parsePortItem)
+  let tpr ← allSome ((splitComma (g "tpr")).map parsePortItem)
+  let fx ← allSome ((splitComma (g "fx")).map parsePrefix)
+  let ex ← allSome ((splitComma (g "ex")).map parsePrefix)
+  let tx ← allSome ((splitComma (g "tx")).map parsePrefix)
+  pure {
+    name := g "name", network := g "net", client := g "client", resolver := g "resolver",
+    fromServers := splitComma (g "fs"), fromUsers := splitComma (g "fu"),
+    fromPorts := fp, fromPortRanges := fpr, fromPrefixes := fx, fromPrefixSets := splitComma (g "fxs"),
+    fromGeoIPCountries := splitComma (g "fg"),
+    toPorts := tp, toPortRanges := tpr, toDomains := splitComma (g "td"), toDomainSets := splitComma (g "tds"),
+    toMatchedDomainExpectedPrefixes := ex, toMatchedDomainExpectedPrefixSets := splitComma (g "exs"),
+    toMatchedDomainExpectedGeoIPCountries := splitComma (g "eg"),
+    toPrefixes := tx, toPrefixSets := splitComma (g "txs"), toGeoIPCountries := splitComma (g "tg"),
+    disableNameResolutionForIPRules := f 'd',
+    invertFromServers := f 's', invertFromUsers := f 'u', invertFromPrefixes := f 'x',
+    invertFromGeoIPCountries := f 'g', invertFromPorts := f 'p', invertToDomains := f 'D',
+    invertToMatchedDomainExpectedPrefixes := f 'E', invertToMatchedDomainExpectedGeoIPCountries := f 'H',
+    invertToPrefixes := f 'X', invertToGeoIPCountries := f 'G', invertToPorts := f 'P' }
+
+def St.params (st : St) : Params where
+  resolve r d := match st.resTab.find? (fun x => x.1 == r && x.2.1 == d) with
+    | some x => x.2.2
+    | none => .errLookup
+  domSet n d := match st.dsetTab.find? (fun x => x.1 == n) with
+    | some x => x.2.contains d
+    | none => false
+  pfxSet n a := match st.psetTab.find? (fun x => x.1 == n) with
+    | some x => x.2.any (fun pf => pf.contains a)
+    | none => false
+  pfx pf a := pf.contains a
+  country _ := none
+
+def buildErrName : BuildErr → String
+  | .badName => "badName" | .geoipNoDb => "geoipNoDb" | .noResolvers => "noResolvers"
+  | .noDomainCriteria => "noDomainCriteria" | .resolverNotFound => "resolverNotFound" | .badNetwork => "badNetwork"
+  | .tcpClientNotFound => "tcpClientNotFound" | .udpClientNotFound => "udpClientNotFound"
+  | .serverNotFound => "serverNotFound" | .badFromPorts => "badFromPorts" | .badFromPortRanges => "badFromPortRanges"
+  | .pointlessFromPorts => "pointlessFromPorts" | .badToPorts => "badToPorts" | .badToPortRanges => "badToPortRanges"
+  | .pointlessToPorts => "pointlessToPorts" | .prefixSetNotFound => "prefixSetNotFound"
+  | .domainSetNotFound => "domainSetNotFound" | .unreachable => "unreachable"
+  | .defaultTCPNotFound => "defaultTCPNotFound" | .defaultUDPNotFound => "defaultUDPNotFound"
+
+def resName : Res → String
+  | .client c => s!"client {c}"
+  | .rejected => "rejected"
+  | .error .noAvailableResolvers => "err noAvailableResolvers"
+  | .error (.resolver t) => s!"err resolver:{t}"
+  | .error .geoip => "err geoip"
+  | .panic => "panic"
+
+def parseReq (kvs : List (String × String)) : Option Req := do
+  let g := lookupKV kvs
+  let net ← (if g "net" == "tcp" then some Net.tcp else if g "net" == "udp" then some Net.udp else none)
+  let srv ← (g "srv").toNat?
+  let src ← parseIP (g "src")
+  let sport ← (g "sport").toNat?
+  let dport ← (g "dport").toNat?
+  let target ← (if g "ddom" != "" then some (Target.domain (g "ddom")) else (parseIP (g "dip")).map Target.ip)
+  pure { net := net, server := srv, user := g "user", srcIP := src, srcPort := sport, target := target, dstPort := dport }
+
+def stepC09 (st : St) (line : String) : St × String :=
+  match fields line with
+  | ["reset"] => ({}, "ok")
+  | "env" :: toks =>
+    let g := lookupKV (toks.map kv)
+    ({ st with
+        env := { hasGeoip := g "geoip" == "1", resolvers := splitComma (g "resolvers"), tcpClients := splitComma (g "tcp"),
+                 udpClients := splitComma (g "udp"), servers := splitComma (g "servers"), domSets := splitComma (g "dsets"),
+                 pfxSets := splitComma (g "psets") },
+        cfg := { st.cfg with defaultTCPClientName := g "deftcp", defaultUDPClientName := g "defudp" } }, "ok")
+  | ["res", r, d, v] =>
+    match parseLookupRes v with
+    | some x => ({ st with resTab := (r, d, x) :: st.resTab }, "ok")
+    | none => (st, "bad-op")
+  | ["dset", n] => ({ st with dsetTab := (n, []) :: st.dsetTab }, "ok")
+  | ["dset", n, ds] => ({ st with dsetTab := (n, splitComma ds) :: st.dsetTab }, "ok")
+  | ["pset", n] => ({ st with psetTab := (n, []) :: st.psetTab }, "ok")
+  | ["pset", n, ps] =>
+    match allSome ((splitComma ps).map parsePrefix) with
+    | some l => ({ st with psetTab := (n, l) :: st.psetTab }, "ok")
+    | none => (st, "bad-op")
+  | "route" :: toks =>
+    match parseRoute (toks.map kv) with
+    | some rc => ({ st with cfg := { st.cfg with routes := st.cfg.routes ++ [rc] } }, "ok")
+    | none => (st, "bad-op")
+  | ["build"] =>
+    match buildRouter st.env st.cfg with
+    | .ok r => ({ st with router := some r }, "ok")
+    | .error e => ({ st with router := none }, s!"err {buildErrName e}")
+  | "req" :: toks =>
+    match st.router, parseReq (toks.map kv) with
+    | some r, some q => (st, resName (getClient st.params r q))
+    | none, _ => (st, "no-router")
+    | _, none => (st, "bad-op")
+  | _ => (st, "bad-op")
+
+def main : IO Unit := Driver.run ({} : St) stepC09
